@@ -71,7 +71,15 @@ Definition eraser (ea : list Z) (eb : list (Z * Z)) (l : stereo_labels) : stereo
 Definition slab_eqb (x y : stereo_labels) : bool := list_eqb lab_eqb (fst x) (fst y) && list_eqb blab_eqb (snd x) (snd y).
 Definition final_ok ea eb hs th ct nb tags rbonds exp :=
   pyres_eqb slab_eqb (from_stereo_final (eraser ea eb) (isH_of hs) th ct (nb_of nb) tags rbonds) exp.
-Definition reg_ok g exp := list_eqb (pair_eqb Z.eqb (list_eqb Z.eqb)) (stereogenic_tetrahedrons_of g) exp.
+Definition adj_eqb (x y : list (Z * list (Z * Z))) : bool := list_eqb (pair_eqb Z.eqb (list_eqb xy_eqb)) x y.
+Definition badj_ok nums bonds exp := adj_eqb (map (fun nl => (fst nl, map (fun mb => (fst mb, b_ord (snd mb))) (snd nl))) (build_adj nums bonds)) exp.
+Definition sub_xy (a b : list (Z * Z)) : bool := forallb (fun p => existsb (xy_eqb p) b) a.
+(* the hypothesis adjacency_of of the end-to-end theorem, as a test: every atom's neighbours (with orders) are the bonds of
+   data.bonds() incident to it, as sets of equal size *)
+Definition adjacency_b (g : mol) (B : list (Z * Z * Z)) : bool :=
+  forallb (fun k => let p := map (fun mb => (fst mb, b_ord (snd mb))) (nbrs g k) in let q := incident k B in
+                    sub_xy p q && sub_xy q p && Nat.eqb (List.length p) (List.length q)) (ids g).
+Definition reg_ok g B exp := list_eqb (pair_eqb Z.eqb (list_eqb Z.eqb)) (stereogenic_tetrahedrons_of g) exp && adjacency_b g B.
 Definition plain_ok a bb exp := Bool.eqb (uses_plain_order a bb) exp.
 Definition ringb_ok sizes exp := Bool.eqb (ring_bond_chiral sizes) exp.
 Definition rbo_ok t exp := pyres_eqb Z.eqb (rdkit_bond_order t) exp.
@@ -405,9 +413,10 @@ def corr_registry(cs, tag, m):
         return
     full = ck.tier == 'thorough'
     labelled = bool(reg) and any(a.stereo is not None for _, a in m.atoms())
-    if n_at > (70 if full else 40) or cs.rng.random() >= ((0.9 if full else 0.45) if labelled else 0.06):
+    if n_at > (70 if full else 40) or cs.rng.random() >= ((0.35 if full else 0.45) if labelled else 0.05):
         return
-    cs.add_big(f'reg_ok {coqmol.mol_term(m)} {lst(list(reg.items()), lambda kv: tup(zraw(kv[0]), lst(kv[1], zraw)))}', (tag, 'stereogenic_tetrahedrons', len(reg)))
+    cs.add_big(f'reg_ok {coqmol.mol_term(m)} {lst([(n, mm, int(bd)) for n, mm, bd in m.bonds()], cbond_term)} '
+               f'{lst(list(reg.items()), lambda kv: tup(zraw(kv[0]), lst(kv[1], zraw)))}', (tag, 'stereogenic_tetrahedrons + adjacency/bonds() consistency', len(reg)))
     ck.count('registry:' + ('empty' if not reg else 'entries'))
     ck.case(('registry', tag), nontrivial=bool(reg))
 
@@ -540,6 +549,13 @@ def corr_from(cs, tag, rd):
     bonds = lst([cbond_term((bi + 1, ei + 1, by_pair.get(frozenset((bi + 1, ei + 1)), (-1, None))[0])) for bi, ei, _ in rsnap['bonds']])
     cs.add_big(f'{head} (Ok ({atoms}, {bonds}))' if same_count else 'false', meta)
     hs = pre['hs']
+    if m is not None and same_count and (tap.want_th or tap.want_ct or cs.rng.random() < 0.15) and len(rsnap['atoms']) <= 60:
+        # the adjacency of the result (neighbour ORDER per atom) == atoms first, then add_bond per RDKit bond
+        bl = [(bi + 1, ei + 1, by_pair[frozenset((bi + 1, ei + 1))][0]) for bi, ei, _ in rsnap['bonds']]
+        adj = [(n, [(mm, int(bd)) for mm, bd in nbs.items()]) for n, nbs in m._bonds.items()]
+        cs.add_big(f'badj_ok {lst(list(range(1, len(rsnap["atoms"]) + 1)), zraw)} {lst(bl, cbond_term)} '
+                   f'{lst(adj, lambda kv: tup(zraw(kv[0]), lst(kv[1], pair_term)))}', (tag, 'adjacency of the result'))
+        ck.count('from-adjacency-of-result')
     if m is not None:
         corr_ring_bonds(cs, tag + '|result', m)
         corr_chiral_order(cs, tag + '|result', m)
@@ -846,8 +862,8 @@ def small_space(ck, salt):
         perms = list(itertools.permutations(range(n)))
         if ck.tier != 'thorough':
             perms = rng.sample(perms, 5)
-        elif len(perms) > 240:
-            perms = rng.sample(perms, 240)      # six-atom molecules: 240 of the 720 numberings
+        elif len(perms) > 120:
+            perms = rng.sample(perms, 60)       # six-atom molecules: 60 of the 720 numberings
         for perm in perms:
             yield smi, perm, Chem.RenumberAtoms(rd, list(perm))
 
